@@ -131,6 +131,14 @@ func extend(r *rand.Rand, g gameT, k int) gameT {
 }
 
 func engineState(e *engine.Engine) out.M {
+	// the boards an engine hands out are forks: what one holder does to his is invisible on the next one
+	if b0 := e.Board(); b0 != nil {
+		for _, m := range b0.Position().PseudoLegalMoves(b0.Turn()) {
+			if b0.PushMove(m) {
+				break
+			}
+		}
+	}
 	b := e.Board()
 	last := []int{}
 	if m, ok := b.LastMove(); ok {
@@ -140,7 +148,7 @@ func engineState(e *engine.Engine) out.M {
 	if o == 0 {
 		o = 1
 	}
-	return out.M{"fen": e.Position(), "pos": proj.Position(b.Position(), b.Turn()), "ply": b.Ply(), "np": b.NoProgress(), "fm": b.FullMoves(),
+	return out.M{"fen": e.Position(), "fenb": fen.Encode(b.Position(), b.Turn(), b.NoProgress(), b.FullMoves()), "pos": proj.Position(b.Position(), b.Turn()), "ply": b.Ply(), "np": b.NoProgress(), "fm": b.FullMoves(),
 		"last": last, "out": o, "castled": []int{proj.B2I(b.HasCastled(board.White)), proj.B2I(b.HasCastled(board.Black))}}
 }
 
